@@ -246,6 +246,9 @@ class Interp:
             self.fresh(a, fn, e, 'comparison')
             self.fresh(b, fn, e, 'comparison')
             x, y = a.idx, b.idx
+        elif op in ('==', '!=') and ((isinstance(a, It) and (isinstance(b, Ptr) and b.rec is None or isinstance(b, int) and b == 0)) or
+                                     (isinstance(b, It) and (isinstance(a, Ptr) and a.rec is None or isinstance(a, int) and a == 0))):
+            return op == '!='            # a pointer into a vector is not null
         elif isinstance(a, Ptr) and isinstance(b, Ptr) and op in ('==', '!='):
             return (a.rec is b.rec) == (op == '==')
         elif isinstance(a, Ptr) and isinstance(b, int) and b == 0 and op in ('==', '!='):
@@ -374,6 +377,9 @@ class Interp:
             if len(succ) == 1:
                 b = succ[0]
                 continue
+            if t.get('cond') is None and t.get('condx') is None and t.get('k') != 'SwitchStmt' and len([x for x in succ if x is not None]) == 1:
+                b = [x for x in succ if x is not None][0]          # `for (;;)`: the exit edge does not exist
+                continue
             if t.get('k') == 'SwitchStmt':
                 sv = val.get(t.get('cond'))
                 if isinstance(sv, bool):
@@ -399,10 +405,39 @@ class Interp:
                 continue
             cond = t.get('cond')
             cx = t.get('condx')
-            while cond is None and isinstance(cx, dict) and cx.get('k') in ('ExprWithCleanups', 'ParenExpr', 'ImplicitCastExpr', 'MaterializeTemporaryExpr') and cx.get('c'):
-                cx = cx['c'][0]
-                if isinstance(cx, int):
-                    cond = cx
+
+            def inline_truth(x):
+                """truth of a condition that the extractor kept as an inline tree over already evaluated elements"""
+                if isinstance(x, int):
+                    if x not in val:
+                        return None
+                    return self.truth(self.rv(val[x]), fn, fn.N(x))
+                k_ = x.get('k')
+                if k_ in ('ExprWithCleanups', 'ParenExpr', 'ImplicitCastExpr', 'MaterializeTemporaryExpr', 'CXXBindTemporaryExpr') and x.get('c'):
+                    return inline_truth(x['c'][0])
+                if k_ == 'UnaryOperator' and x.get('op') == '!' and x.get('c'):
+                    r_ = inline_truth(x['c'][0])
+                    return None if r_ is None else (not r_)
+                if k_ == 'BinaryOperator' and x.get('op') in ('&&', '||'):
+                    a_ = inline_truth(x['c'][0])
+                    if a_ is None:
+                        return None
+                    if (x['op'] == '&&' and not a_) or (x['op'] == '||' and a_):
+                        return a_
+                    b_ = inline_truth(x['c'][1])
+                    return a_ if b_ is None else b_
+                if x.get('v') is not None:
+                    return bool(x['v'])
+                return None
+            if cond is None and isinstance(cx, dict):
+                tr = inline_truth(cx)
+                if tr is None:
+                    self.broken(fn, t, 'two-way branch whose inline condition could not be evaluated')
+                nxt = succ[0] if tr else succ[1]
+                if nxt is None:
+                    return None
+                b = nxt
+                continue
             if cond is None or cond not in val:
                 self.broken(fn, t or blk['el'][-1] if blk['el'] else {'ln': fn.f.get('l0')}, 'two-way branch without an evaluated condition')
             v = val[cond]
